@@ -203,10 +203,6 @@ class ndpoly(numpy.ndarray):  # pylint: disable=invalid-name
         assert isinstance(allocation, int) and allocation >= len(
             keys
         ), "Not enough memory allocated; increase 'allocation'"
-        if allocation > len(keys):
-            allocation_ = numpy.arange(allocation - len(keys), len(keys))
-            allocation_ = [str(s) for s in allocation_]
-            keys = numpy.concatenate([keys, allocation_])
         obj.allocation = allocation
 
         if names is None:
